@@ -12,6 +12,6 @@ CONSTANTS
   MaxPosOps = 6
   Active = {"r1", "r2", "w"}
   Bin = FALSE
-  Acts = {"write", "read", "readblock", "seek", "tell", "refresh", "close", "reopen", "delete", "tick"}
+  Acts = {"write", "writenf", "flush", "read", "readblock", "seek", "tell", "refresh", "close", "reopen", "delete", "tick"}
   Defects = {"overwrite", "refresh_skip", "frac_ts"}
 ACTION_CONSTRAINT Emit
